@@ -1805,6 +1805,13 @@ class ContentDir(Dir):
     type_name = "redun.ContentDir"
     classes = ContentFileClasses()
 
+    def _calc_hash(self, files: Optional[list[File]] = None) -> str:
+        # Hash the member files by content, as ContentFile and ContentFileSet do. The filesystem's
+        # own file hashes (Dir._calc_hash) are based on size and modification time.
+        if files is None:
+            files = list(self)
+        return hash_struct([self.type_basename, self.path] + sorted(file.hash for file in files))
+
 
 class ContentStagingFile(StagingFile):
     type_basename = "ContentStagingFile"
